@@ -55,7 +55,18 @@ TLoad ==
 TNext == TLoad
 TSpec == TInit /\ [][TNext]_l
 
+(* diagnostics for a rejected Load: per differing field, what was loaded but is not described and what is described but was not loaded *)
+DiffOf(e) ==
+  LET a == LoadedFacts(e.loaded)
+      b == Describes(e.files)
+  IN [ f \in {g \in {"terms", "parents", "gene", "omim", "orpha"} : a[g] # b[g]} |->
+         [loaded_not_described |-> a[f] \ b[f], described_not_loaded |-> b[f] \ a[f]] ]
+     @@ (IF a.version # b.version THEN [version |-> [loaded |-> a.version, described |-> b.version]] ELSE <<>>)
+
 Accepted ==
   TLCGet("stats").diameter = Len(Rec) + 1
-    \/ (PrintT(<<"UNMATCHED", TLCGet("stats").diameter>>) /\ FALSE)     \* = number of the first line not matched
+    \/ LET n == TLCGet("stats").diameter IN         \* = number of the first line not matched
+        /\ PrintT(<<"UNMATCHED", n>>)
+        /\ (n <= Len(Rec) /\ Rec[n].e = "Load" /\ InEnvelope(Rec[n].files)) => PrintT(<<"DIFF", DiffOf(Rec[n])>>)
+        /\ FALSE
 =============================================================================
